@@ -31,7 +31,9 @@ func (w *World) extraChecks(id string, opts *RunOpts) *Extra {
 		w.boundedC14(id, opts, ex)
 	}
 	w.callOrder(id, opts, ex)
-	if id == "C01" || id == "C06" || id == "C08" || id == "C09" {
+	if id == "C01" || id == "C06" || id == "C08" || id == "C09" || id == "C14" || id == "C16" {
+		// C14/C16: struct tags carry the property's name verbatim; a name that reaches
+		// a format string does not
 		w.fmtSweep(id, opts, ex)
 	}
 	if id == "C16" {
